@@ -148,6 +148,7 @@ class Interp(ModelMixin):
         self.functions_entered.add(fi.qualname)
         fr = Frame(fi, id(node), len(st.frames))
         fr.callnode = node
+        fr.serial0 = st.serial
         bound = self.bind_args(fi, args, kwargs, st, node, self_val)
         if isinstance(bound, Raise):
             return [(bound, st)]
@@ -1314,7 +1315,10 @@ class Interp(ModelMixin):
             st.put(o.sym, e.set(name, val))
             f = st.frame.func
             own = f is not None and f.kind == 'property' and f.node.args.args and st.frame.env.get(f.node.args.args[0].arg) == o
-            if own:
+            getters = [fr for fr in st.frames if fr.func is not None and fr.func.kind == 'property']
+            if getters and o.sym > getters[0].serial0:
+                pass        # initialising an object allocated inside the getter being evaluated: not an observable effect
+            elif own:
                 # a getter caching into its own receiver (``self._id = ...``): idempotent, only that object's
                 # value numbers are dropped
                 memo = st.mon.get('propmemo')
